@@ -163,3 +163,15 @@ claim("C14",
       "method's orbital count and the same core charges.",
       "Does not decide numerical identities (eigenvalues of the reported Fock matrix, dipole vs charges). Trusted: alias map of names.",
       "DESIGN.md section 4, C14")
+
+claim("C02",
+      "dependence analysis over the lattice {constant, piecewise-constant, smooth} in the frame builders (chart-site detection), constant folding of chart "
+      "thresholds, who-may-read inventory of absolute coordinates",
+      "Decides where the local->molecular frame builders substitute a constant for a smoothly varying value under a condition on "
+      "the bond vector (the mechanism by which forces lose covariance on a measure-zero but user-typical set while energies stay "
+      "invariant), bounds the size of those regions, and decides that absolute coordinates enter the package only as differences "
+      "or through the inventoried origin-dependent consumers. The two charts present at this commit are recorded known findings "
+      "(triaged at run time); a new chart site or an enlarged region is a violation.",
+      "Does not decide that the 100-component integral rotation and the Slater-Koster overlap rotation are orthogonal "
+      "representations (numerical). Trusted: dependence lattice, axial symmetry of local-frame integrals.",
+      "DESIGN.md section 4, C02")
